@@ -1,6 +1,8 @@
 package main
 
 import (
+	"net/url"
+	"strings"
 	"encoding/json"
 	"fmt"
 	"math/rand"
@@ -138,6 +140,44 @@ func runC01proc(c *runCtx) {
 			}
 			if v != nil && first[id] != "" && first[id][:7] != "PENDING" && v.State == "PENDING" {
 				c.violate("procfault:completed-promise-pending-again", fmt.Sprintf("round %d: promise %s read %s, later PENDING", round, id, first[id]), nil)
+			}
+		}
+		// ids fixed at creation: two promises whose ids differ only by a trailing or leading slash stay two promises,
+		// and each is addressed by exactly its own id on the path-based routes
+		for _, pair := range [][2]string{{fmt.Sprintf("c01.%d.job", round), fmt.Sprintf("c01.%d.job/", round)}, {fmt.Sprintf("c01.%d.x", round), fmt.Sprintf("/c01.%d.x", round)}} {
+			ok := true
+			for _, id := range pair {
+				if rp := srv.JSON("POST", "/promises", nil, map[string]any{"id": id, "timeout": far, "param": map[string]any{"data": []byte(id)}}); rp.Err != nil || rp.Status != 201 {
+					ok = false
+				}
+			}
+			if !ok {
+				continue
+			}
+			esc := func(id string) string {
+				parts := strings.Split(id, "/")
+				for i := range parts {
+					parts[i] = url.PathEscape(parts[i])
+				}
+				return strings.Join(parts, "/")
+			}
+			for _, id := range pair {
+				rp := srv.JSON("GET", "/promises/"+esc(id), nil, nil)
+				var got struct {
+					Id string `json:"id"`
+				}
+				c.rep.Events++
+				c.rep.Hit("c01proc.slash-id-read")
+				if rp.Err == nil && rp.Status == 200 && json.Unmarshal(rp.Body, &got) == nil && got.Id != id {
+					c.violate("procid:read-addresses-another-promise", fmt.Sprintf("round %d: GET /promises/%s returned the promise %q", round, esc(id), got.Id), nil)
+				}
+			}
+			// completing the second one leaves the first one pending
+			rp := srv.JSON("PATCH", "/promises/"+esc(pair[1]), nil, map[string]any{"state": "RESOLVED"})
+			if rp.Err == nil && rp.Status == 201 {
+				if v, _ := read(esc(pair[0])); v != nil && v.State != "PENDING" {
+					c.violate("procid:completion-hit-another-promise", fmt.Sprintf("round %d: completing %q completed %q", round, pair[1], pair[0]), nil)
+				}
 			}
 		}
 		c.rep.Hit("c01proc.rounds")
